@@ -8,6 +8,8 @@ TOOLS=$(dirname $(rustc +nightly --print target-libdir))/bin
 rm -rf $OUT; mkdir -p $OUT/raw
 cd /verif/harness
 export CARGO_NET_OFFLINE=true
+# build scripts of instrumented crates write their own profiles into the crate directories: keep them in $OUT
+export LLVM_PROFILE_FILE=$OUT/raw/build-%p-%m.profraw
 CARGO_TARGET_DIR=$OUT/target RUSTFLAGS="-C instrument-coverage" cargo build --release --offline 2>&1 | tail -2
 BIN=$OUT/target/release/acb_verif_harness
 python3 - "$BIN" "$OUT" <<'PY'
